@@ -313,6 +313,24 @@ func (fx *FnCtx) fnEnv(st *State, at point) *SpecEnv {
 	for n, v := range fx.params {
 		env.vars[n] = v
 	}
+	// positional aliases param0, param1, ... (receiver first) for parameters whose name collides with `res`
+	off := 0
+	if fx.fn.Signature.Recv() != nil {
+		off = 1
+	}
+	for i, p := range fx.fn.Params {
+		if v, ok := fx.params[p.Name()]; ok {
+			env.vars[fmt.Sprintf("param%d", i)] = v
+			// the same aliases a call site uses (recv, arg0, ...), so that a clause can name a parameter either way
+			if i < off {
+				if _, has := env.vars["recv"]; !has {
+					env.vars["recv"] = v
+				}
+			} else if _, has := env.vars[fmt.Sprintf("arg%d", i-off)]; !has {
+				env.vars[fmt.Sprintf("arg%d", i-off)] = v
+			}
+		}
+	}
 	for _, fv := range fx.fn.FreeVars {
 		env.freeVars = append(env.freeVars, freeVarBinding{fv.Name(), fx.entry.env[fv], fv.Type()})
 	}
